@@ -103,6 +103,8 @@ def build(name, spec, X, seed=0):
         tag = spec.get("base_kernel", "linear")
         if tag == "callable":
             kw["base_kernel"] = aff.my_kernel
+            if "_base_kernel_params" in spec:          # documented: ignored (with a warning) for a callable, but stored as given
+                kw["base_kernel_params"] = dict(spec["_base_kernel_params"])
         else:
             sp = {s[0]: s for s in aff.KERNEL_SPECS}[tag]
             kw["base_kernel"] = sp[1]
